@@ -118,6 +118,8 @@ func argVal(kind string, v reflect.Value) ArgVal {
 	case "B":
 		b := v.Interface().(ArgsB)
 		return ArgVal{Kind: "B", S: b.S, N: b.N}
+	case "C":
+		return ArgVal{Kind: "C", N: v.Interface().(ArgsC).N}
 	}
 	return ArgVal{}
 }
